@@ -157,3 +157,53 @@ def run(ctx):
     ctx.assumptions += ["each fault atom falsifies exactly the conditions TO2Device.tla lists for it (by construction of the forgery in harness/devexec)",
                         "the carrier is the real TO2Server; forged vouchers are inserted into its store under the GUID the device asks for"]
     return "model_checking"
+
+
+def run_blob_half(ctx, prop="C07"):
+    """Device half of C07: the blob obtained through TO0/TO1 from the real rendezvous server is the
+    one registered (byte fidelity), TO2 accepts it, and any altered / foreign-signed blob makes TO2
+    abort before ProveDevice. Uses the TO2Device.tla cases whose atoms concern the blob only."""
+    rnd = random.Random(ctx.seed)
+    wd = ctx.sub("c07-gen")
+    cfgp = os.path.join(wd, "TO2Device_Gen.cfg")
+    with open(cfgp, "w") as f:
+        f.write(dev_gen_cfg([1, 2], 1))
+    r = ctx.tlc("TO2Device_Gen", cfgp, workers=4, timeout=1800)
+    if r["errors"]:
+        raise Inconclusive("TO2Device_Gen failed:\n" + r["out"][-3000:])
+    terms = [t for t in ctx.behaviours(r) if t["to1d"] and all(a.startswith("to1d_") for a in t["atoms"])]
+    ctx.cov["states"] += r.get("distinct", 0)
+    ctx.cov["transitions"] += r.get("generated", 0)
+    cfgs = ["P256/1", "P384/2", "RSA2048RESTR/1"] if ctx.quick() else ALL_CFGS
+    cases = []
+    for cfg in cfgs:
+        for t in terms:
+            c = dict(t)
+            c["cfg"] = cfg
+            cases.append(c)
+    wd = ctx.sub("c07-replay")
+    cp = os.path.join(wd, "cases.json")
+    with open(cp, "w") as f:
+        json.dump(cases, f)
+    op = os.path.join(wd, "outcomes.json")
+    ctx.run_vh(["dev-replay", "-in", cp, "-out", op], timeout=3300)
+    outs = json.load(open(op))
+    executed = 0
+    for o in outs:
+        c = cases[o["idx"]]
+        if o.get("skipped") and not o.get("mismatch"):
+            continue
+        executed += 1
+        if o.get("mismatch"):
+            atoms = "+".join(sorted(c["atoms"])) or "honest"
+            key = "blob|%s|%s" % (atoms, o["mismatch"].split(":")[0])
+            if o.get("panic"):
+                key = "panic|%s|%s" % (o["panic"].split("@")[-1].strip(), atoms)
+            ctx.violation(key, "%s on %s: %s" % (atoms, c["cfg"], o["mismatch"]), {"case": c, "outcome": o})
+    if executed == 0:
+        raise Inconclusive("no blob case was executable")
+    ctx.cov["traces_validated_against_impl"] += executed
+    ctx.cov["evaluations"] += executed
+    ctx.cov["distinct_nontrivial"] += len(set((tuple(c["atoms"]), c["n"], c["cfg"]) for c in cases))
+    ctx.notes["blob_cases"] = executed
+    ctx.notes["blob_atoms"] = sorted(set(a for c in cases for a in c["atoms"]))
